@@ -144,6 +144,9 @@ func treeInputs(emit func([]byte)) {
 		n = 300000
 	}
 	src.mixed(n, emit)
+	// structured families: nested inline constructs, links/definitions with every white-space layout in every
+	// container, and products of (container prefix x content) lines
+	src.structured(thorough, emit)
 	// all short strings over an inline-rich alphabet (brackets, delimiters, escapes, multi-byte, NUL)
 	maxLen := 4
 	if thorough {
